@@ -183,7 +183,8 @@ CLAIMED = {
              "loadXtce (toXml d) = d: parameter types (class, unit, encoding with default and context calibrators, criteria in "
              "all three forms nested to any depth, length specification with adjustment; string encodings in any of the ten "
              "codecs with fixed, parameter-referenced or looked-up size and a leading size or a termination character; "
-             "integer enumerations; time types with epoch, offset reference, units and scale/offset), parameters "
+             "enumerations keyed by integers, finite floats or (on a string encoding) ASCII text in the field's codec; time types "
+             "on any encoding with epoch, offset reference, units and scale/offset), parameters "
              "(type reference, descriptions), containers (entry order, base container, restriction criteria, abstract flag, "
              "descriptions, inheritor lists), header date, space-system name, namespace. It is assembled from the element-level "
              "theorems (comparison/condition/boolexpr, polynomial/spline, discrete lookup, context calibrator, int/float/binary/"
@@ -194,9 +195,8 @@ CLAIMED = {
              "computes exactly the `basedOn` lists). DefWF is the shape a load produces (keys are names and unique, containers "
              "in dependency order, back-populated inheritors, tables in cache order) with every element inside the regime of "
              "its element-level theorem; a concrete instance (exDef_wf) is proved to satisfy it and its round trip is also "
-             "computed by the kernel. Outside the regime (not theorems; decided by the correspondence): float- or string-keyed "
-             "enumerations, time types on string or binary encodings, string encodings carrying both a leading size and a "
-             "termination character, definitions whose tables are not yet in load order (first cycle of an object-assembled definition), and the "
+             "computed by the kernel. Outside the regime (not theorems; decided by the correspondence): enumerations with NaN / "
+             "infinite or non-ASCII keys, a byte order recorded on a single-byte string codec, definitions whose tables are not yet in load order (first cycle of an object-assembled definition), and the "
              "equality of decoding - definitions built both ways go through write/load/write/load/write on model and "
              "library, every stage is compared, and an independent by-name structural comparison (incl. length adjustments) "
              "plus identical decoding of random packets is the oracle.",
